@@ -196,7 +196,11 @@ func driveC01(t *testing.T, out *vEmitter) {
 								if !vThorough() && (method != "GET" && (ajax || remote[0] == '1' && remote[1] == '0' && p.kind == "other")) {
 									continue
 								}
-								vC01Case(out, e, v, redis, c, p.target, p.kind, method, remote, ajax)
+								vC01Case(out, e, v, redis, c, p.target, p.kind, method, remote, ajax, false)
+								if v.preflight && !ajax && p.kind != "other" {
+									// a request that merely looks like a CORS preflight (headers) but is not OPTIONS
+									vC01Case(out, e, v, redis, c, p.target, p.kind, method, remote, ajax, true)
+								}
 							}
 						}
 					}
@@ -207,7 +211,7 @@ func driveC01(t *testing.T, out *vEmitter) {
 	}
 }
 
-func vC01Case(out *vEmitter, e *vEnv, v vC01Variant, redis bool, c vCred, target, kind, method, remote string, ajax bool) {
+func vC01Case(out *vEmitter, e *vEnv, v vC01Variant, redis bool, c vCred, target, kind, method, remote string, ajax bool, cors bool) {
 	var hs [][2]string
 	if c.cookie != "" {
 		hs = append(hs, [2]string{"Cookie", c.cookie})
@@ -217,6 +221,9 @@ func vC01Case(out *vEmitter, e *vEnv, v vC01Variant, redis bool, c vCred, target
 	}
 	if ajax {
 		hs = append(hs, [2]string{"Accept", "application/json"})
+	}
+	if cors {
+		hs = append(hs, [2]string{"Origin", "https://other.example"}, [2]string{"Access-Control-Request-Method", "DELETE"})
 	}
 	req, err := vRawRequest(vBuildRaw(method, target, "app.example.com", hs, ""))
 	if err != nil {
